@@ -236,6 +236,19 @@ def main():
                                 items.append(("pre", variant, part, singles, n, sp1, sp2, mt))
                             if sp1 == sp2 and n == 2 and len(sp1) <= 2:
                                 items.append(("pre", variant, part, singles, n, sp1, sp2, mt))
+    # triples classes (two lower classes): overlaps with the lowest and the doubles class
+    TRIPLES = {"pp": ("ph", "pphh", "ppphhh"), "ip": ("h", "phh", "pphhh"), "ea": ("p", "pph", "ppphh")}
+    for variant, (low, dbl, tri) in TRIPLES.items():
+        for singles in ((False,) if quick else (False, True)):
+            for sp1, sp2 in ((low, tri), (tri, low), (dbl, tri)):
+                for n in (0, 1) if quick else (0, 1, 2):
+                    if variant == "pp" and (n > 1 or (quick and sp1 == dbl)):
+                        continue
+                    if n == 2 and sp1 == dbl:
+                        continue
+                    nh = max(sp1.count("h"), sp2.count("h"))
+                    np_ = max(sp1.count("p"), sp2.count("p"))
+                    items.append(("isr", variant, "mp", singles, n, sp1, sp2, (max(2, nh), max(2, np_))))
     if not quick:
         # fourth order: first order with products S*S inside S^(-1/2) (multi-index classes)
         items += [("isr", "dip", "mp", False, 4, "hh", "hh", (3, 2)),
